@@ -18,6 +18,15 @@ class ConflictError(Exception):
     """Stand-in for ZODB.POSException.ConflictError."""
 
 
+class SimLoadError(Exception):
+    """The storage could not deliver a record (I/O error, closed connection)."""
+
+
+class SimPOSKeyError(KeyError):
+    """... or does not have it (ZODB's POSKeyError IS a KeyError, which the
+    package must not mistake for 'key not in the container')."""
+
+
 class ReadConflictError(ConflictError):
     """Stand-in for ZODB.POSException.ReadConflictError."""
 
@@ -240,8 +249,19 @@ class SimConnection(object):
         self.hazards = []
 
     # -- persistent.interfaces.IPersistentDataManager
+    # fault `load-fail`: the n-th load from now on raises
+    load_fault = None
+    load_fault_exc = SimLoadError
+    load_fired = 0
+
     def setstate(self, obj):
         oid = obj._p_oid
+        if self.load_fault is not None:
+            self.load_fault -= 1
+            if self.load_fault <= 0:
+                self.load_fault = None
+                self.load_fired += 1
+                raise self.load_fault_exc("injected load failure")
         data, serial = self.storage.load_before(oid, self.snapshot + 1)
         self.n_setstate += 1
         self._setstate(obj, data, serial)
